@@ -246,6 +246,18 @@ def _worker(job):
                         c['call'] = go_call(job, inputs)
                         c['count'] = cnt
                     res['candidates'].append(c)
+                    if verdict == 'sat' and kind == 'assert' and len(res['candidates']) < 400:
+                        # a second witness from the same path class, preferring the digit '0' wherever the
+                        # class allows it (boundary values such as -0, 0.0, 00 reproduce what generic models miss)
+                        alt = _zero_witness(ses, ex, st, cellsout)
+                        if alt is not None:
+                            inputs2 = {name: concrete_input(ex, alt, cells) for name, cells in cellsout}
+                            if inputs2 != inputs:
+                                c2 = dict(c)
+                                c2['inputs'] = {k: v.hex() for k, v in inputs2.items()}
+                                c2['script'] = [_scriptval(ex, alt, t) for t in st.nondet]
+                                c2['call'] = go_call(job, inputs2)
+                                res['candidates'].append(c2)
         # samples: concrete members of path classes that reached the harness marks
         for rid, lst in sorted(ses.reach_samples.items()):
             for pc, extras, nondet in lst[:job.opts.get('nsamples', 3)]:
@@ -284,6 +296,25 @@ def _worker(job):
         res['error'] = 'engine error: %s\n%s' % (e, traceback.format_exc()[-1500:])
     res['wall_s'] = time.time() - t0
     return res
+
+
+def _zero_witness(ses, ex, st, cellsout):
+    from gosym.mdd import FULL
+    pc = st.pc
+    for name, cells in cellsout:
+        for t in cells:
+            if t.__class__ is Term and t.op == 'var':
+                v = ex.store.vars[t.args[0]]
+                if v.kind == 'byte' and pc is not None and pc.idx >= 0:
+                    m = ex._project(pc, v.order)
+                    if m != FULL and (m >> 48) & 1 and m & (m - 1):
+                        npc = ex.mdd.and_byte(pc, v.order, 1 << 48)
+                        if npc is not None:
+                            pc = npc
+    if pc is st.pc or pc is None:
+        return None
+    verdict, assign = ses.model_pc(pc, st.extras, quick=True, raw=st.raw)
+    return assign if verdict == 'sat' else None
 
 
 def _scriptval(ex, assign, t):
@@ -454,7 +485,19 @@ class Check:
         todo = []
         for site, lst in bysite.items():
             lst.sort(key=lambda c: (len(c['call']), c['call']))
-            for i, c in enumerate(lst[:3]):
+            # up to 12 witnesses per site, at most 3 from any one job (different input lengths /
+            # templates give different witnesses; the first ones need not be the ones that reproduce)
+            perjob = {}
+            picked = []
+            for c in lst:
+                k = perjob.get(c['job'], 0)
+                if k >= 3:
+                    continue
+                perjob[c['job']] = k + 1
+                picked.append(c)
+                if len(picked) >= 12:
+                    break
+            for i, c in enumerate(picked):
                 c['rname'] = 'c%d_%d' % (len(todo), i)
                 todo.append(c)
         if not todo:
